@@ -3,7 +3,7 @@
  "name": "raw_image_inode_loop",
  "props": ["C19"],
  "level": "U/iter",
- "tier": "wip",
+ "tier": "quick",
  "tier_after_hooks": "quick",
  "harness": "h_raw_inodes",
  "loop_contracts": true,
